@@ -62,7 +62,16 @@ def handle (inp out : String) : String :=
     let ows := words out
     let (ov, oa, og) := (ows.headD "?", ows.getD 1 "?", ows.getD 2 "?")
     if !sixNames.contains pol then "skip bad-policy" else
-    match expect2 label ov oa og with
+    let ob := (ows.find? (·.startsWith "B")).getD "B?"
+    let od := (ows.find? (·.startsWith "D")).getD "D?"
+    -- the same question put through the caller's context alone gets the same answer; a document of no octets is hashed
+    -- and compared like any other (the generated signatures are never signatures of the empty document)
+    let extra : Option String :=
+      if ob != "B?" && ob.drop 1 != oa.drop 1 && !(label == "level-invalid" && s!"V{ob.drop 1}:-:-" == ov) then some s!"hash-and-level-inside-the-callers-context-give-{ob}-given-explicitly-{oa}"
+      else if od.startsWith "D0:" then some "signature-accepted-for-a-document-of-no-octets"
+      else if label == "ok-expected" && od != "D?" && ((od.splitOn ":").getD 1 "") != "257" then some s!"empty-document-not-reported-as-another-document-{od}"
+      else none
+    match (expect2 label ov oa og).orElse (fun _ => extra) with
     | some why => s!"specfail w:{pol}:{label} {why}"
     | none =>
     match ofHex sigHex, level.toNat? with
